@@ -204,6 +204,7 @@ def arccos(x):
     if not _assume() and core.branch(z3.Or((q < -1).t, (q > 1).t)):
         return float("nan")
     a = _fresh("acos")
+    INVERSE_OF[a.name] = ("arccos", q)
     _eq_fact(a.c, q)
     core.assume_fact((a.s >= 0).t)
     return Ang({a.name: 1}, "rad", {a.name: a})
